@@ -214,3 +214,17 @@ def body_spell_{group}({sig}) -> int:
 for _g in SPELL:
     exec(_SP.format(group=_g, sig=GV_SIG, args=GV_ARGS,
                     pre="(" + GV_PRE['A'] + ") or (" + GV_PRE['B'] + ")"))
+
+
+@obligation(pre="0 <= first <= 5 and 0 <= second <= 5 and first != second", witnesses=(0,), timeout=240)
+def body_generic_history(first: int, second: int) -> int:
+    """from_data through a subscripted generic dataclass depends on the type argument only, not on which equal-comparing argument (union members in the other order) was subscripted before"""
+    from props import shared as _sh
+    n = 0
+    a = b = 0
+    for k in range(6):
+        if first == k:
+            a = k
+        if second == k:
+            b = k
+    return _sh.check_generic_history(a, b)
